@@ -31,6 +31,8 @@ CORPUS = {
     "unp_res": _case(_cfg(), [["submit", {"kind": "unp_res", "token": 0}], ["submit", _e(1)], ["wait_all"], ["shutdown", True, False]]),
     "die_then_probe": _case(_cfg(max_workers=2), [["submit", {"kind": "die", "token": 0, "cause": -9}], ["submit", _e(1)], ["wait_all"]],
                             [["hold"], ["sleep", 5000.0], ["probe", 1]]),
+    "respawn_dies_at_start": _case(_cfg(timeout=0.5), [["submit", _e(0)], ["result", 0], ["sleep", 2.0], ["submit", _e(1)], ["wait_all"]],
+                                   faults=[{"worker": 1, "at": 2, "cause": -9}]),
     "kill_shutdown": _case(_cfg(max_workers=2), [["submit", {"kind": "gate", "token": 0, "g": 0}], ["submit", _e(1)], ["shutdown", True, True]]),
     "reusable_resize": _case(_cfg(executor="reusable", max_workers=1, timeout=10),
                              [["get", {"max_workers": 1, "timeout": 10, "reuse": "auto", "kill_workers": False}], ["submit", _e(0)],
@@ -43,8 +45,8 @@ CORPUS = {
 
 FOR = {
     "C01": ["echo_shutdown", "unp_arg_del", "unp_arg_shutdown", "pending_del", "timeout0_seq", "nowait_shutdown", "exit_with_pending",
-            "two_submitters"],
-    "C02": ["die_then_probe"],
+            "two_submitters", "respawn_dies_at_start"],
+    "C02": ["die_then_probe", "respawn_dies_at_start"],
     "C03": ["cancel_race", "timeout0_seq"],
     "C04": ["unp_arg_shutdown", "unp_res"],
     "C05": ["echo_shutdown", "unp_arg_del", "pending_del", "nowait_shutdown", "exit_with_pending"],
